@@ -999,6 +999,78 @@ def run(ctx):
         ssrc.append(rep)
         dist["stream:%d-msgs" % min(len(want), 5)] = dist.get("stream:%d-msgs" % min(len(want), 5), 0) + 1
 
+    # ================================================================= framing: refused writes on one long-lived writer
+    # One V030ReadWriter is handed accepted and refused messages alternately (payload above the limit by 1 / by a lot, declared
+    # length != len(payload)) and goes on after each refusal; per call the bytes reaching the connection are counted, the writer is
+    # flushed explicitly at the end, one reader reads the wire to its end.
+    ST2 = []
+
+    def smsg2(n, kind="ok", lim=LIM):
+        m = smsg(n)
+        if kind == "big1":
+            m["payload"] = hx(rng.randbytes(lim + 1))
+        elif kind == "big":
+            m["payload"] = hx(rng.randbytes(lim + rng.choice([2, 48, 1000, 5000])))
+        elif kind == "decl":
+            m["use_decl"], m["decl_len"] = True, n + rng.choice([1, -1, 7]) if n > 0 else 1
+        elif kind == "decl-big":
+            m["use_decl"], m["decl_len"] = True, lim + 1       # declared above the limit, small payload: refused as invalid size
+        elif kind == "decl-ok":
+            m["use_decl"], m["decl_len"] = True, n             # consistent declared length through the same Message type
+        return m
+    pats = [["ok", "big1", "ok"], ["big1", "ok"], ["ok", "big1"], ["big1"], ["big1", "big1", "ok", "ok"], ["ok", "big", "ok", "big1", "ok"],
+            ["ok", "decl", "ok"], ["decl", "ok"], ["ok", "decl"], ["decl-big", "ok"], ["decl", "big1", "decl", "ok"], ["decl-ok", "big1", "decl-ok"],
+            ["ok", "ok", "big1", "ok", "decl", "ok", "big", "ok"]]
+    for pat in pats:
+        for lim in (LIM, 48, 1):
+            ST2.append({"op": "stream2", "max": lim, "msgs": [smsg2(rng.randrange(0, min(lim, 60) + 1), k, lim) for k in pat],
+                        "chunk": rng.choice([0, 1, 49]), "_pat": pat})
+    for _ in range(15 if quick else 400):
+        lim = rng.choice([LIM, 100, 16])
+        pat = [rng.choice(["ok", "ok", "ok", "big1", "big", "decl", "decl-big", "decl-ok"]) for _ in range(rng.randrange(1, 9))]
+        ST2.append({"op": "stream2", "max": lim, "msgs": [smsg2(rng.randrange(0, min(lim, 80) + 1), k, lim) for k in pat], "chunk": rng.choice([0, 0, 5]), "_pat": pat})
+    ST2 += corpus.get("stream2", [])
+    rc, log, SO2 = run_engine(ctx, b030, "TestVerifC18FrameEngine", ST2, "frame_stream2")
+    if rc != 0 or len(SO2) != len(ST2):
+        raise RuntimeError("frame engine (refused writes) failed rc=%s obs=%d/%d:\n%s" % (rc, len(SO2), len(ST2), log[-3000:]))
+    s2items, s2src = [], []
+    for c, o in zip(ST2, SO2):
+        lim = c["max"]
+        writes = o.get("writes") or []
+        held = o.get("held") or []
+        rep = {"case": {"max": lim, "chunk": c["chunk"], "pattern": c.get("_pat"), "msgs": [dict(m, payload_len=len(m["payload"]) // 2) for m in c["msgs"]]},
+               "writes": writes, "wire_before_flush": o.get("wire_before"), "wire": o.get("wire"), "held": held, "end_cls": o.get("end_cls")}
+        acc, exp_wire_len = [], 0
+        for m, wobs in zip(c["msgs"], writes):
+            plen = len(m["payload"]) // 2
+            decl = m["decl_len"] if m.get("use_decl") else plen
+            should = decl == plen and plen <= lim
+            if wobs["cls"] == 4:
+                pred_fail.append(("C18:write-panic", "WriteMsg panicked on a long-lived writer", rep))
+            if (wobs["cls"] == 0) != should:
+                pred_fail.append(("C18:write-refusal", "WriteMsg %s a message with payload %d, declared length %d, limit %d" % ("accepted" if wobs["cls"] == 0 else "refused", plen, decl, lim), rep))
+            if wobs["cls"] != 0 and wobs["emitted"] != 0:
+                pred_fail.append(("C18:refused-write-emits", "a refused WriteMsg put %d bytes on the connection" % wobs["emitted"], rep))
+            if wobs["cls"] == 0:
+                acc.append({k: m[k] for k in ("proto", "ts", "id", "orig", "payload")})
+                exp_wire_len += HDR + plen
+                if wobs["emitted"] != HDR + plen:
+                    pred_fail.append(("C18:accepted-write-emits", "an accepted WriteMsg of a %d-byte payload put %d bytes on the connection (buffered bytes of an earlier refused write?)" % (plen, wobs["emitted"]), rep))
+        o["wire"], o["wire_before"] = o.get("wire") or "", o.get("wire_before") or ""
+        if o["wire"] != o["wire_before"]:
+            pred_fail.append(("C18:refused-write-buffered", "bytes of a refused WriteMsg stayed in the writer's buffer and reached the connection at a later flush", rep))
+        if len(o.get("wire", "")) // 2 != exp_wire_len:
+            pred_fail.append(("C18:wire-not-accepted-frames", "the wire is %d bytes, the frames of the accepted messages are %d bytes" % (len(o.get("wire", "")) // 2, exp_wire_len), rep))
+        if held != acc or o.get("end_cls") != 1:
+            pred_fail.append(("C18:mixed-stream-not-read-back", "after refused writes on the same writer the reader did not get exactly the accepted messages followed by a clean end "
+                              "(got %d of %d, end class %s)" % (len(held), len(acc), o.get("end_cls")), rep))
+        cm = lambda m, ln: coq_msg(m["proto"], ln, m["ts"], bytes.fromhex(m["id"]), bytes.fromhex(m["orig"]), bytes.fromhex(m["payload"]))
+        ws = "[" + "; ".join("(%s, (%d, %d))" % (cm(m, m["decl_len"] if m.get("use_decl") else len(m["payload"]) // 2), wobs["cls"], wobs["emitted"]) for m, wobs in zip(c["msgs"], writes)) + "]"
+        hs2 = "[" + "; ".join(cm(m, len(m["payload"]) // 2) for m in held) + "]"
+        s2items.append("(%d, %s, %s, %s)" % (lim, ws, cb(bytes.fromhex(o.get("wire", ""))), hs2))
+        s2src.append(rep)
+        dist["stream2:%s" % ("refused-last" if writes and writes[-1]["cls"] != 0 else "accepted-last")] = dist.get("stream2:%s" % ("refused-last" if writes and writes[-1]["cls"] != 0 else "accepted-last"), 0) + 1
+
     # ================================================================= framing: reads
     R = gen_reads(ctx, W, WO)
     for c in corpus.get("reads", []):
@@ -1616,7 +1688,9 @@ def run(ctx):
     shards.append(("stream", "stream", 0, head + [
         "From Verif Require Import P2P.Stream.",
         "Definition scases : list (N * list msg * bytes * list msg) := [%s]." % ";\n".join(sitems),
-        "Definition MS := Eval vm_compute in mismatches_from stream_case_ok scases 0.", "Print MS."]))
+        "Definition MS := Eval vm_compute in mismatches_from stream_case_ok scases 0.", "Print MS.",
+        "Definition s2cases : list (N * list (msg * (N * N)) * bytes * list msg) := [%s]." % ";\n".join(s2items),
+        "Definition MS2 := Eval vm_compute in mismatches_from mixed_case_ok s2cases 0.", "Print MS2."]))
     HSH = 400
     hs_def = ["Definition hs_ok (c : N * local * status * N) : bool :=",
               "  let '(v, l, st, cls) := c in",
@@ -1735,6 +1809,10 @@ def run(ctx):
             if res["MA"]:
                 corr.append(("measured allocation of ReadMsg outside [alloc, alloc*9/8+16K] of the model", [dict(case=rcases[off + i][0], obs=rcases[off + i][1]) for i in res["MA"][:5]]))
         elif kind == "stream":
+            if "MS2" not in res:
+                corr.append(("model evaluation unparsable (%s MS2)" % name, out[-1000:]))
+            elif res["MS2"]:
+                corr.append(("one writer with refused writes interleaved and P2P/Stream.v (write_msg_emit / write_stream_mixed) differ", [s2src[i] for i in res["MS2"][:3]]))
             if "MS" not in res:
                 corr.append(("model evaluation unparsable (%s)" % name, out[-1000:]))
             elif res["MS"]:
@@ -1818,7 +1896,7 @@ def run(ctx):
     lap("model evaluation")
     ctx.cov["timing_s"] = tm
     # ================================================================= evidence
-    evals = len(W) + len(R) + len(ST) + len(HS) + len(BC) + len(chain_obs) + len(neg_cases)
+    evals = len(W) + len(R) + len(ST) + len(ST2) + len(HS) + len(BC) + len(chain_obs) + len(neg_cases)
     evals += len(recv_items) + len(sm_items) + len(wire_marshal) + len(wire_resp) + len(wire_rresp) + len(wire_read) + len(wire_wire) + len(wire_out) + len(vers_kind) + len(vers_conn) + sum(len(x["case"]["steps"]) for x in ci_src)
     ctx.cov["evaluations"] = evals
     ctx.cov["traces_validated_against_impl"] = evals
